@@ -272,4 +272,138 @@ Section Proofs.
     - simpl esc_names. cbv iota. rewrite escape_head. rewrite <- escape_head, unescape_escape. exact Hp.
     - destruct x as [|q|q]; try exact Hp. repeat (destruct q as [q|q|]; try exact Hp). congruence.
   Qed.
+
+  (* ------------------------------------------------- column-major reading *)
+  Notation args_match := (args_match const const_eqb).
+  Notation cellf := (cell const print fixed).
+
+  (* state of a row after the columns with the filter entries [fp] have been read *)
+  Definition st (fp : list (option const)) (r : row) : rowst const :=
+    if args_match fp r then Some (rev (firstn (length fp) r)) else None.
+
+  Lemma args_match_snoc : forall fp r f c,
+    nth_error r (length fp) = Some c ->
+    args_match (fp ++ [f]) r = args_match fp r && match f with Some w => const_eqb w c | None => true end.
+  Proof.
+    induction fp as [|g fp IH]; intros r f c H.
+    - destruct r as [|x r]; [discriminate|]. simpl in H. inversion H; subst.
+      simpl. destruct f; [rewrite andb_true_r|]; reflexivity.
+    - destruct r as [|x r]; [discriminate|]. simpl in H. simpl app.
+      cbn [SimpleColumn.args_match]. destruct g.
+      + rewrite (IH r f c H). rewrite andb_assoc. reflexivity.
+      + apply IH. exact H.
+  Qed.
+
+  Lemma firstn_snoc : forall (r : row) j c, nth_error r j = Some c -> firstn (S j) r = firstn j r ++ [c].
+  Proof.
+    induction r as [|x r IH]; intros j c H; [destruct j; discriminate|].
+    destruct j; simpl in *.
+    - inversion H; reflexivity.
+    - f_equal. apply IH. exact H.
+  Qed.
+
+  Lemma st_snoc : forall fp r f c,
+    nth_error r (length fp) = Some c ->
+    st (fp ++ [f]) r =
+    match st fp r with
+    | None => None
+    | Some acc => match f with
+                  | Some w => if const_eqb w c then Some (c :: acc) else None
+                  | None => Some (c :: acc)
+                  end
+    end.
+  Proof.
+    intros fp r f c Hc. unfold st. rewrite (args_match_snoc fp r f c Hc).
+    rewrite app_length. simpl length. rewrite Nat.add_1_r. rewrite (firstn_snoc r _ c Hc), rev_app_distr. simpl.
+    destruct (args_match fp r); [|reflexivity].
+    destruct f as [w|]; [destruct (const_eqb w c)|]; reflexivity.
+  Qed.
+
+  Lemma read_column_step : forall f fp rows,
+    (forall r, In r rows -> exists c, nth_error r (length fp) = Some c /\ const_ok c) ->
+    read_column const const_eqb parse f (map (st fp) rows) (map (fun r => cellf r (length fp)) rows)
+    = Some (map (st (fp ++ [f])) rows).
+  Proof.
+    intros f fp. induction rows as [|r rows IH]; intro H; [reflexivity|].
+    destruct (H r (or_introl eq_refl)) as [c [Hc Hok]].
+    assert (IH' := IH (fun r' Hr' => H r' (or_intror Hr'))). clear IH.
+    cbn [map]. rewrite (st_snoc fp r f c Hc).
+    destruct (st fp r) as [acc|]; cbn [read_column].
+    - unfold cell at 1. rewrite Hc. rewrite (read_cell_esc c Hok). rewrite IH'. reflexivity.
+    - rewrite IH'. reflexivity.
+  Qed.
+
+  Definition col_lines (rows : list row) (a n : nat) : list bytes :=
+    flat_map (fun j => map (fun r => cellf r j) rows) (seq a n).
+
+  Lemma col_lines_length : forall rows n a, length (col_lines rows a n) = (n * length rows)%nat.
+  Proof.
+    unfold col_lines. induction n as [|n IH]; intro a; [reflexivity|].
+    cbn [seq flat_map]. rewrite app_length, map_length, IH. reflexivity.
+  Qed.
+
+  Lemma firstn_app_exact : forall {A} (l m : list A), firstn (length l) (l ++ m) = l.
+  Proof. intros. rewrite firstn_app, Nat.sub_diag, firstn_all. simpl. apply app_nil_r. Qed.
+  Lemma skipn_app_exact : forall {A} (l m : list A), skipn (length l) (l ++ m) = m.
+  Proof. intros. rewrite skipn_app, Nat.sub_diag, skipn_all. reflexivity. Qed.
+
+  Lemma read_columns_all : forall fs fp rows rest,
+    (forall r, In r rows -> length r = (length fp + length fs)%nat /\ Forall const_ok r) ->
+    read_columns const const_eqb parse fs (length rows) (map (st fp) rows)
+                 (col_lines rows (length fp) (length fs) ++ rest)
+    = Some (map (st (fp ++ fs)) rows, rest).
+  Proof.
+    induction fs as [|f fs IH]; intros fp rows rest H.
+    - simpl. rewrite app_nil_r. reflexivity.
+    - unfold col_lines. cbn [length seq flat_map read_columns]. rewrite <- app_assoc.
+      set (col := map (fun r => cellf r (length fp)) rows).
+      assert (L : length col = length rows) by (unfold col; apply map_length).
+      rewrite <- L at 1. rewrite firstn_app_exact. unfold col at 1.
+      rewrite read_column_step.
+      + rewrite <- L. rewrite skipn_app_exact.
+        replace (S (length fp)) with (length (fp ++ [f])) by (rewrite app_length; simpl; lia).
+        fold (col_lines rows (length (fp ++ [f])) (length fs)).
+        rewrite L. rewrite IH.
+        * rewrite <- app_assoc. reflexivity.
+        * intros r Hr. destruct (H r Hr) as [Hl Hf]. split; [|exact Hf].
+          rewrite app_length. simpl in *. lia.
+      + intros r Hr. destruct (H r Hr) as [Hl Hf]. simpl in Hl.
+        destruct (nth_error r (length fp)) as [c|] eqn:E.
+        * exists c. split; [reflexivity|]. rewrite Forall_forall in Hf. apply Hf. eapply nth_error_In. exact E.
+        * apply nth_error_None in E. lia.
+  Qed.
+
+  Lemma kept_st : forall FS rows,
+    (forall r, In r rows -> length r = length FS) ->
+    kept const (map (st FS) rows) = filter (args_match FS) rows.
+  Proof.
+    intros FS. induction rows as [|r rows IH]; intro H; [reflexivity|].
+    cbn [map filter]. unfold st at 1. destruct (args_match FS r).
+    - cbn [kept]. rewrite <- (H r (or_introl eq_refl)), firstn_all, rev_involutive.
+      f_equal. apply IH. intros r' Hr'. apply H. right. exact Hr'.
+    - cbn [kept]. apply IH. intros r' Hr'. apply H. right. exact Hr'.
+  Qed.
+
+  Lemma repeat_map_st : forall rows, repeat (Some (@nil const)) (length rows) = map (st []) rows.
+  Proof. induction rows as [|r rows IH]; [reflexivity|]. simpl. rewrite IH. reflexivity. Qed.
+
+  Definition rows_ok (ar : nat) (rows : list row) : Prop :=
+    forall r, In r rows -> length r = ar /\ Forall const_ok r.
+
+  Lemma read_pred_ok : forall ar FS rows rest,
+    length FS = ar -> rows_ok ar rows ->
+    read_pred const const_eqb parse ar (count const rows) FS (col_lines rows 0 ar ++ rest)
+    = Some (filter (args_match FS) rows, rest).
+  Proof.
+    intros ar FS rows rest HFS Hrows. unfold read_pred.
+    rewrite HFS, Nat.eqb_refl. cbn [negb].
+    rewrite app_length, col_lines_length. unfold count.
+    destruct (Z.of_nat (ar * length rows + length rest) <? Z.of_nat (length rows) * Z.of_nat ar) eqn:E;
+      [apply Z.ltb_lt in E; lia|].
+    rewrite Nat2Z.id, repeat_map_st. subst ar.
+    pose proof (read_columns_all FS [] rows rest) as R. cbn [length app Nat.add] in R.
+    rewrite R.
+    - rewrite kept_st; [reflexivity|]. intros r Hr. apply (Hrows r Hr).
+    - intros r Hr. apply (Hrows r Hr).
+  Qed.
 End Proofs.
